@@ -76,6 +76,12 @@ def oracle_identity(case, rec):
             if abs(via - want) > t:
                 raise Violation(f'numba_mi(..., {nm!r}) = {via!r}, expected {want!r} ({"corrected" if nm == "MI-numba-randomized" else "plain"} score) '
                                 f'after the call sequence {names + names[:1]}', kind='C03/heuristic-flag')
+        # the ranking layer hands the feature over as a single-column 2-d block when a reference model is configured: same vector
+        col = float(ie.numba_mi(np.asarray(Y).reshape(-1, 1), np.asarray(X), 'MI-numba-randomized', 1.0))
+        rec.cls('feature-as-(n,1)-block')
+        if abs(col - ref) > t:
+            raise Violation(f'numba_mi with the feature given as an (n, 1) block scores {col!r}, as a vector {ref!r} (n={len(Xl)})',
+                            kind='C03/heuristic-flag')
 
 
 def oracle_corollaries(case, rec):
